@@ -1,6 +1,8 @@
 import CuqiVerif.Model.Proto
 import CuqiVerif.Model.QMat
 import CuqiVerif.Model.C12
+import CuqiVerif.Model.C12_linear
+import CuqiVerif.Model.C12_ctor
 open CuqiVerif CuqiVerif.Proto CuqiVerif.C12
 
 /-!
@@ -276,6 +278,98 @@ def withEqr (eqr : String) (D R : Geom V) : Option (Geom V × Geom V) :=
       some (D', R')
   | _ => none
 
+def parseLinModel (tok : String) (R D : Geom V) : Option (LinObj Rat) :=
+  match tok.splitOn ":" with
+  | ["linmat", A] => do
+      let A ← parseMat A
+      some (LinObj.ofMatrix A (QMat.transposeN (QMat.ncols A) A) R D)
+  | ["linfun", fs, A, Adj, arg] => do
+      let keep ← parseBool fs
+      let A ← parseMat A
+      let Adj ← parseMat Adj
+      some (LinObj.ofFuncs (fun v => pure (lift1 keep (mulVec A) v)) (fun v => pure (lift1 keep (mulVec Adj) v)) R D arg)
+  | _ => none
+
+/-- `true` = `.T`, `false` = `get_matrix()` -/
+def parsePath (s : String) : Option (List Bool) :=
+  if s = "_" then some [] else
+  (s.splitOn ",").mapM (fun o => if o = "T" then some true else if o = "g" then some false else none)
+
+def fmtExcept {γ : Type} (f : γ → String) : Except Err γ → String
+  | .ok v => f v
+  | .error e => fmtErr e
+
+/-! ### constructors and glue (`Model/C12_ctor.lean`) -/
+
+def parseGeomArg (s : String) : Option GeomArg :=
+  match s.splitOn ":" with
+  | ["t", l] => if l = "_" then some (.tuple []) else (parseNatList l).map .tuple
+  | ["i", n] => n.toInt?.map .int
+  | ["g", g, d] => do some (.geometry (← g.toNat?) (← d.toNat?))
+  | ["none"] => some .none
+  | ["other"] => some .other
+  | _ => none
+
+def parseOptCallable (s : String) : Option OptCallable :=
+  if s = "a" then some .absent else if s = "c" then some .callable else if s = "n" then some .notCallable else none
+
+/-- `-` = no attribute, `_` = empty list, else comma-separated names -/
+def parseCached (s : String) : Option (List String) :=
+  if s = "-" then none else if s = "_" then some [] else some (s.splitOn ",")
+
+/-- `_` or `name.0,name.1` (1 = has a default) -/
+def parseParams (s : String) : Option (List (String × Bool)) :=
+  if s = "_" then some [] else
+  (s.splitOn ",").mapM (fun t => match t.splitOn "." with
+    | [n, b] => (parseBool b).map (fun b => (n, b))
+    | _ => none)
+
+def fmtGeomRes : GeomRes → String
+  | .default2D r c => s!"d2:{r}:{c}"
+  | .default1D n => s!"d1:{n}"
+  | .given g d => s!"g:{g}:{d}"
+
+def fmtNames (l : List String) : String := if l.isEmpty then "_" else ",".intercalate l
+
+def fmtCExcept {γ : Type} (f : γ → String) : Except CErr γ → String
+  | .ok v => f v
+  | .error e => s!"err {e.toString}"
+
+def fmtGradSource : GradSource → String
+  | .none => "none" | .userGradient => "gradient" | .jacobianWrapper => "jacobian"
+
+def fmtInitRes (r : ModelInitRes) : String :=
+  s!"ok {fmtGradSource r.gradSource} {fmtGeomRes r.range} {fmtGeomRes r.domain} {r.range.parDim} {r.domain.parDim} {fmtNames r.nonDefaultArgs}"
+
+def parseLinForward (s : String) : Option LinForward :=
+  match s.splitOn "|" with
+  | ["c", cached, params] => do some (.callable (parseCached cached) (← parseParams params))
+  | ["m", r, c] => do some (.matrix (← r.toNat?) (← c.toNat?))
+  | ["n"] => some .noShape
+  | _ => none
+
+def stepCtor : List String → Option String
+  | ["ctor", fc, g, j, ra, da, cached, params] => do
+      let a : ModelInitArgs := { forwardCallable := ← parseBool fc, gradient := ← parseOptCallable g, jacobian := ← parseOptCallable j,
+                                 rangeArg := ← parseGeomArg ra, domainArg := ← parseGeomArg da,
+                                 cached := parseCached cached, params := ← parseParams params }
+      some (fmtCExcept fmtInitRes (modelInit a))
+  | ["linctor", f, adj, ra, da] => do
+      let r := linearInit (← parseLinForward f) (← parseOptCallable adj) (← parseGeomArg ra) (← parseGeomArg da)
+      some (fmtCExcept (fun (r : LinInitRes) =>
+        s!"ok {fmtBool r.matrixBacked} {fmtGeomRes r.range} {fmtGeomRes r.domain} {r.range.parDim} {r.domain.parDim} {fmtNames r.nonDefaultArgs}") r)
+  | ["pdector", isPDE, ra, da] => do
+      some (fmtCExcept fmtInitRes (pdeInit (← parseBool isPDE) (← parseGeomArg ra) (← parseGeomArg da)))
+  | ["arrnew", ndim, len0, isPar, geom] => do
+      let g ← if geom = "-" then some none else geom.toNat?.map some
+      some (fmtCExcept fmtGeomRes (cuqiarrayNew (← ndim.toNat?) (← len0.toNat?) (← parseBool isPar) g))
+  | ["iter", kind, data, ncols] => do
+      let rows ← parseMat data
+      let n ← ncols.toNat?
+      let sd : SamplesData Rat ← if kind = "a" then some (.array rows n) else if kind = "l" then some (.list rows) else none
+      some s!"it {sd.ns} {fmtMat sd.iter}"
+  | _ => none
+
 def step : List String → String
   -- forward on data: fwd M D R input isPar nPos kw(, separated or _)
   | ["fwd", m, d, r, eqr, x, isPar, nPos, kw] =>
@@ -338,6 +432,42 @@ def step : List String → String
         | none => "unmodelled"
       | _, _, _, _, _ => "bad-op"
     | none => "bad-op"
-  | _ => "bad-op"
+  -- LinearModel object with a call path:  lin M D R eqr domainDim rangeDim path probe…
+  --   path  = `_` or a comma-separated list of `g` (get_matrix() on the current object) and `T` (continue with `.T`)
+  --   probe = fwd input isPar | adj input isPar | mm input | gm | grad dir wrt isDirPar isWrtPar | args
+  | "lin" :: m :: d :: r :: eqr :: ddim :: rdim :: path :: probe =>
+    match (do let D ← parseGeom d; let R ← parseGeom r; withEqr eqr D R), ddim.toNat?, rdim.toNat? with
+    | some (D, R), some ddim, some rdim =>
+      let D := { D with parDim := ddim }
+      let R := { R with parDim := rdim }
+      match parseLinModel m R D, parsePath path with
+      | some M, some ops =>
+        let cur := ops.foldl (fun (c : LinObj Rat) o => if o then c.T else c.afterGetMatrix) M
+        match probe with
+        | ["fwd", x, isPar] =>
+          match parseInput x, parseBool isPar with
+          | some x, some isPar => fmtExcept fmtOutput (cur.forward 1 [] x isPar)
+          | _, _ => "bad-op"
+        | ["adj", y, isPar] =>
+          match parseInput y, parseBool isPar with
+          | some y, some isPar => fmtExcept fmtOutput (cur.adjoint y isPar)
+          | _, _ => "bad-op"
+        | ["mm", x] =>
+          match parseInput x with
+          | some x => fmtExcept fmtOutput (cur.matmul x)
+          | none => "bad-op"
+        | ["gm"] => fmtExcept (fun (p : QMat.Mat × LinObj Rat) => s!"mat {p.1.length} {fmtMat p.1}") cur.getMatrix
+        | ["grad", dir, wrt, idp, iwp] =>
+          match parseGArg dir, parseGArg wrt, parseBool idp, parseBool iwp with
+          | some dir, some wrt, some idp, some iwp =>
+            match cur.gradient dir wrt idp iwp with
+            | some r => fmtExcept fmtVal r
+            | none => "unmodelled"
+          | _, _, _, _ => "bad-op"
+        | ["args"] => s!"args {",".intercalate cur.args} {fmtBool cur.matrix.isSome}"
+        | _ => "bad-op"
+      | _, _ => "bad-op"
+    | _, _, _ => "bad-op"
+  | l => (stepCtor l).getD "bad-op"
 
 def main : IO Unit := runDriver step
